@@ -345,9 +345,13 @@ def check_spans(case) -> Outcome:
     s = case["s"]
     try:
         tokens = list(tokenize(s))
-    except FormulaParsingError:
+    except FormulaParsingError as e:
+        if case.get("expect") is not None:
+            out.fail("well-formed-quotes-rejected", f"{s!r}: {str(e).splitlines()[0][:120]}")
         out.rejected = True
         return out
+    if case.get("expect") is not None and [t.token for t in tokens] != case["expect"]:
+        out.fail("quoted-token-texts", f"{s!r}: tokens {[t.token for t in tokens]} vs {case['expect']}")
     out.nontrivial = len(tokens) >= 3
     last_end = -1
     for t in tokens:
@@ -379,8 +383,20 @@ def gen_spans():
     # quoted tokens whose content holds escaped characters (also as the last character before the closing quote)
     piece = st.sampled_from(["a", "b c", "\\h", "\\`", "\\}", "\\%", "\\\\", "x", "1", "+", " "])
     body = st.lists(piece, min_size=1, max_size=4).map("".join)
-    quoted = st.one_of(body.map(lambda b_: "`" + b_ + "`"), body.map(lambda b_: "{" + b_ + "}"), body.map(lambda b_: "a %" + b_.replace(" ", "") + "% b"))
-    escaped = st.lists(st.one_of(quoted, st.sampled_from(["a", "x1", "f(a)"])), min_size=1, max_size=3).map(lambda ps: {"s": " + ".join(ps)})
+    # (source text, expected token texts)
+    quoted = st.one_of(
+        body.map(lambda b_: ("`" + b_ + "`", [b_])), body.map(lambda b_: ("{" + b_ + "}", [b_])),
+        body.filter(lambda b_: b_.strip()).map(lambda b_: ("a %" + b_.replace(" ", "") + "% b", ["a", b_.replace(" ", ""), "b"])),
+    )
+    plain_ = st.sampled_from(["a", "x1", "f(a)"]).map(lambda v: (v, [v]))
+
+    def _mk(ps):
+        exp = []
+        for i_, (_, toks) in enumerate(ps):
+            exp += (["+"] if i_ else []) + toks
+        return {"s": " + ".join(src for src, _ in ps), "expect": exp}
+
+    escaped = st.lists(st.one_of(quoted, plain_), min_size=1, max_size=3).map(_mk)
     return st.one_of(escaped, gen_alpha(), gen_mutated(), gen_pyfrag(), st.builds(lambda t, ws: {"s": wsjoin(G.tokens_structured(t), ws)}, G.structured(max_leaves=6), st.lists(st.integers(0, 11), max_size=5)))
 
 
